@@ -288,9 +288,9 @@ def op_token(name):
 
 PX_OPS = {'union': '{} union {}', 'bar': '{} | {}', 'inter': '{} intersect {}', 'except': '{} except {}',
           'is': '{} is {}', 'prec': '{} << {}', 'foll': '{} >> {}', 'inner': 'innermost(({}, {}))',
-          'outer': 'outermost(({}, {}))', 'root': 'root({})'}
-PX_ABS = ['Dx', 'Dy', 'Da', 'D*', 'T', 'Kx', 'Ky', 'K*']
-PX_REL = ['cx', 'cy', 'ca', 'c*', 'dx', 'dy', 'd*', 'p', 's', 't']
+          'outer': 'outermost(({}, {}))', 'root': 'root({})', 'comma': '({}, {})'}
+PX_ABS = ['Dx', 'Dy', 'Da', 'D*', 'T', 'Kx', 'Ky', 'K*', 'Ix', 'O*', 'Oy', 'I*']
+PX_REL = ['cx', 'cy', 'ca', 'c*', 'dx', 'dy', 'd*', 'p', 's', 't', 'i*', 'ox', 'o*']
 
 
 def px_path(code: str) -> str:
@@ -299,7 +299,8 @@ def px_path(code: str) -> str:
         code = code[:-1]
     form, name = code[0], code[1:]
     text = {'D': f'//{name}', 'T': '/*', 'K': f'/*/{name}', 'c': name, 'd': f'.//{name}', 'p': '..', 's': '.',
-            't': '@*'}[form]
+            't': '@*', 'I': f'innermost(//{name})', 'O': f'outermost(//{name})', 'i': f'innermost(.//{name})',
+            'o': f'outermost(.//{name})'}[form]
     return f'({text})[1]' if first else text
 
 
@@ -307,7 +308,7 @@ def px_expr(op: str, nodes) -> str:
     _, form, focus, opn, c1, c2 = op.split(':')
     body = PX_OPS[opn].format(px_path(c1), px_path(c2))
     if form == 'i':
-        return f'({body})' if opn not in ('inner', 'outer', 'root') else body
+        return f'({body})' if opn not in ('inner', 'outer', 'root', 'comma') else body
     if form == 's':
         return f'$f/({body})'
     if form == 'r':
@@ -335,11 +336,13 @@ def run_px(root, nodes, op: str) -> str:
         else:
             ctx = XPathContext(root=root, variables={'f': fnode})
         res = list(tok.select(ctx))
+        # the expression must give the focus back: this is what makes `copy(context)` per operand sufficient
+        moved = '!focus-moved' if form == 'i' and ctx.item is not fnode else ''
         if form != 'q' and opn in ('is', 'prec', 'foll'):
-            return '-' if not res else ('T' if res[0] is True else 'F' if res[0] is False else f'?{res[0]!r}')
-        return '.'.join(str(idx.get(id(x), '?')) for x in res) or '_'
+            return ('-' if not res else ('T' if res[0] is True else 'F' if res[0] is False else f'?{res[0]!r}')) + moved
+        return ('.'.join(str(idx.get(id(x), '?')) for x in res) or '_') + moved
     except Exception as e:
-        return err_str(e)
+        return err_str(e).replace('ERR:err:', 'ERR:')
 
 
 def run_op(root, nodes, op: str) -> str:
@@ -496,13 +499,14 @@ def gen_ops(rng, n: int, count: int, kinds: str = '') -> list[str]:
         # absolute/relative x left/right combinations
         for _ in range(2 if count < 6 else 3):
             opn = rng.choice(['union', 'bar', 'inter', 'except', 'inter', 'except', 'is', 'prec', 'foll',
-                              'inner', 'outer', 'root'])
+                              'inner', 'outer', 'root', 'comma'])
             single = opn in ('is', 'prec', 'foll', 'root')
 
             def code(absolute):
                 c_ = rng.choice(PX_ABS if absolute else PX_REL)
-                if single and c_ not in ('p', 's'):
-                    c_ += '1'
+                if single and c_ not in ('p', 's') and not (c_ == 'T' and rng.random() < 0.6) \
+                        and not (opn != 'root' and rng.random() < 0.45):
+                    c_ += '1'       # `/*` alone is a singleton in a document: also used bare
                 elif not single and rng.random() < 0.15 and c_ not in ('p', 's'):
                     c_ += '1'
                 return c_
